@@ -104,6 +104,17 @@ Definition recent_only : bblk -> bool := bb_recent.      (* refresh only for blo
 (* the abstraction ForkChoice.v uses: the parent has been handed to the verify thread or verified *)
 Definition handled (s : bstate) (p : N) : bool := memN p (s_pending s) || memN p (s_ext s).
 
+(* ---- search_orphan_leader's two reads -------------------------------------------- *)
+(* The chain-service thread reads is_pending_verify and the block status (published snapshot) one after
+   the other while the verify thread may complete blocks in between: [s1] is the state at the first
+   read, [s2] at the second.  [pending_first] = the order of the reads (process_lonely_block has always
+   read is_pending_verify first; search_orphan_leader read the status first before the repair be63b31). *)
+Definition leader_there (pending_first : bool) (s1 s2 : bstate) (p : N) : bool :=
+  if pending_first then memN p (s_pending s1) || memN p (s_snap s2)
+  else memN p (s_snap s1) || memN p (s_pending s2).
+Fixpoint verify_n (k : nat) (s : bstate) : bstate :=
+  match k with O => s | S k' => verify_n k' (verify always s) end.
+
 (* ---- cases from the harness -------------------------------------------------- *)
 (* a delivery schedule on a real node: per delivered block whether it reaches the broker (it does not when
    non-contextual verification refuses it) and the orphan pool's size once the node is quiescent *)
